@@ -220,13 +220,74 @@ func c06(c *Ctx) {
 					}
 					return true
 				})
+				// variables the buffer variable takes its value from by plain copies (buf' := buf), and — for a candidate V — the
+				// variables V's value is copied on to; a fresh allocation stored into V replaces the buffer of the next round when
+				// the two meet (V is the buffer variable, or V is copied back into what the buffer variable is taken from)
+				copies := map[types.Object][]types.Object{} // lhs ← rhs (identifier to identifier)
+				for _, h := range ix.All {
+					if ix.Outer(h) != outer {
+						continue
+					}
+					inspectNoLit(h.Body(), func(m ast.Node) bool {
+						if a2, isAs := m.(*ast.AssignStmt); isAs && len(a2.Lhs) == len(a2.Rhs) {
+							for i, l2 := range a2.Lhs {
+								lo, ro := objOf(info, l2), objOf(info, a2.Rhs[i])
+								if lo != nil && ro != nil && lo != ro {
+									copies[lo] = append(copies[lo], ro)
+								}
+							}
+						}
+						return true
+					})
+				}
+				sources := map[types.Object]bool{next: true}
+				for changed := true; changed; {
+					changed = false
+					for s := range sources {
+						for _, r := range copies[s] {
+							if !sources[r] {
+								sources[r] = true
+								changed = true
+							}
+						}
+					}
+				}
+				reaches := func(v types.Object) bool {
+					seen := map[types.Object]bool{v: true}
+					for changed := true; changed; {
+						changed = false
+						for l, rs := range copies {
+							for _, r := range rs {
+								if seen[r] && !seen[l] {
+									seen[l] = true
+									changed = true
+								}
+							}
+						}
+					}
+					for s := range seen {
+						if sources[s] {
+							return true
+						}
+					}
+					return false
+				}
 				rebinds := toSet(g.Match(func(m ast.Node) bool {
-					r := assignRHS(m, func(e ast.Expr) bool { return sameVar(info, e, next) })
-					if r == nil {
+					a2, isAs := m.(*ast.AssignStmt)
+					if !isAs || len(a2.Lhs) != len(a2.Rhs) {
 						return false
 					}
-					call, ok := unparen(r).(*ast.CallExpr)
-					return ok && (isCallTo(info, call, "slices.Clone") || builtinName(info, call) == "make" || builtinName(info, call) == "append")
+					for i, l2 := range a2.Lhs {
+						lo := objOf(info, l2)
+						if lo == nil || !reaches(lo) {
+							continue
+						}
+						call, ok := unparen(a2.Rhs[i]).(*ast.CallExpr)
+						if ok && (isCallTo(info, call, "slices.Clone") || builtinName(info, call) == "make" || builtinName(info, call) == "append") {
+							return true
+						}
+					}
+					return false
 				}))
 				// negative form: from the EnqueueExport call, the exit is reachable without a re-bind only across an edge that implies "not accepted"
 				start := g.NodeOf(n)
